@@ -1,5 +1,6 @@
 import BitcaskVerif.Props.C06
 import BitcaskVerif.Props.C06Bytes
+import BitcaskVerif.Props.C06Client
 #print axioms Resp.c06_cmd_roundtrip
 #print axioms Resp.c06_replies
 #print axioms Resp.c06_get_exact
@@ -18,3 +19,13 @@ import BitcaskVerif.Props.C06Bytes
 #print axioms Resp.c06_bytes_prefix_of_run
 #print axioms Resp.c06_bytes_cut
 #print axioms Resp.c06_bytes_then_anything
+-- the client library (Props/C06Client.lean)
+#print axioms Resp.c06_client_get
+#print axioms Resp.c06_client_set
+#print axioms Resp.c06_client_del
+#print axioms Resp.c06_client_error_reply
+#print axioms Resp.c06_client_eof
+#print axioms Resp.c06_client_get_accepts
+#print axioms Resp.c06_client_set_accepts
+#print axioms Resp.c06_client_del_accepts
+#print axioms Resp.c06_client_conversation
